@@ -443,6 +443,17 @@ class Interp:
 
     def assign(self, t, v, f):
         if isinstance(t, ast.Name):
+            if t.id in f.locals.get("__nonlocal__", ()):
+                ff = f.parent
+                while ff is not None:
+                    if t.id in ff.locals:
+                        ff.locals[t.id] = v
+                        return
+                    if t.id in ff.cells:
+                        ff.cells[t.id].cell_contents = v
+                        return
+                    ff = ff.parent
+                raise Unsupported(f"nonlocal {t.id}: no binding found")
             f.locals[t.id] = v
         elif isinstance(t, ast.Attribute):
             obj = self.eval(t.value, f)
@@ -652,7 +663,7 @@ class Interp:
         raise Unsupported("global statement")
 
     def s_Nonlocal(self, s, f):
-        raise Unsupported("nonlocal statement")
+        f.locals.setdefault("__nonlocal__", set()).update(s.names)
 
     # -- expressions ----------------------------------------------------------------------------
     def eval(self, e, f):
